@@ -729,8 +729,9 @@ class ArgumentParser(ParserDeprecations, ActionsContainer, ArgumentLinking, argp
             cfg_dict = load_value(cfg_str, path=cfg_path, ext_vars=ext_vars)
         except get_loader_exceptions() as ex:
             raise TypeError(f"Problems parsing config: {ex}") from ex
-        if key and isinstance(cfg_dict, dict):
-            cfg_dict = cfg_dict.get(key, {})
+        for subkey in split_key(key) if key else []:
+            if isinstance(cfg_dict, dict):
+                cfg_dict = cfg_dict.get(subkey) or {}
         if not isinstance(cfg_dict, dict):
             raise TypeError(f"Unexpected config: {cfg_str}")
         return self._apply_actions(cfg_dict, prev_cfg=prev_cfg)
@@ -988,7 +989,9 @@ class ArgumentParser(ParserDeprecations, ActionsContainer, ArgumentLinking, argp
     def _get_default_config_files(self) -> List[Tuple[Optional[str], Path]]:
         default_config_files = []
 
-        for key, parser in parent_parsers.get():
+        parents = parent_parsers.get()
+        for num, (_, parser) in enumerate(parents):
+            key = ".".join(k for k, _ in parents[num:])  # section of this parser inside the parent's config
             for pattern in parser.default_config_files:
                 files = sorted(glob.glob(os.path.expanduser(pattern)))
                 default_config_files += [(key, v) for v in files]
